@@ -3,7 +3,7 @@
    same hash (recorded per individual) and (same object or Individual.__eq__), the latter from
    Model/IndividualEq.v. *)
 From Coq Require Import List ZArith Bool Floats.
-From Artap Require Export Base.Ord Base.FloatInst Model.Dominance Model.IndividualEq Model.Selection.
+From Artap Require Export Base.Ord Base.FloatInst Base.StableSort Model.Dominance Model.IndividualEq Model.Selection.
 Import ListNotations.
 Local Open Scope float_scope.
 
@@ -23,7 +23,8 @@ Inductive c03_case :=
 | CTour (pop : list c3ind) (smp : option (nat * nat)) (coin : option nat).
 
 Inductive c03_obs :=
-| OCrowd (r : list (nat * Ext float))    (* the front list afterwards: ids in order, distances *)
+| OCrowd (r : list (nat * Ext float))    (* (id, distance) of every member, sorted by id: the order the call
+                                            leaves the list in is not part of the property and not compared *)
 | OIds (r : list nat)                    (* ids of the truncated population, in order *)
 | OWin (w : nat)                         (* id of the tournament winner *)
 | OErr.
@@ -69,7 +70,10 @@ Definition uniform_len (f : list (nat * list float)) : bool :=
 Definition c03_run (c : c03_case) : c03_obs :=
   match c with
   | CCrowd f =>
-      if uniform_len f then OCrowd (map (fun p => (fst (fst p), snd p)) (fcrowding f)) else OErr
+      if uniform_len f
+      then OCrowd (ssort (fun p q : nat * Ext float => Nat.leb (fst p) (fst q))
+                         (map (fun p => (fst (fst p), snd p)) (fcrowding f)))
+      else OErr
   | CTrunc pop order k =>
       match ftruncate pop order k with Some r => OIds (map c3id r) | None => OErr end
   | CTour pop smp coin =>
